@@ -47,7 +47,9 @@ func bevelOverVertex() cat.Named3 {
 	r := []model3d.Coord3D{p(-0.3, -0.3, 0.1), p(1, 0, 0.1), p(1.3, 1.3, 0.1), p(0, 1, 0.1)}
 	t := []model3d.Coord3D{p(-0.3, -0.3, 1), p(1, 0, 1), p(1.3, 1.3, 1), p(0, 1, 1)}
 	var ts [][3]model3d.Coord3D
-	quad := func(a, b, c, d model3d.Coord3D) { ts = append(ts, [3]model3d.Coord3D{a, b, d}, [3]model3d.Coord3D{b, c, d}) }
+	quad := func(a, b, c, d model3d.Coord3D) {
+		ts = append(ts, [3]model3d.Coord3D{a, b, d}, [3]model3d.Coord3D{b, c, d})
+	}
 	quad(b[0], b[3], b[2], b[1])
 	quad(t[0], t[1], t[2], t[3])
 	for i := 0; i < 4; i++ {
@@ -252,10 +254,10 @@ func editors2(r *ev.Run) {
 
 func replay(r *ev.Run) {
 	b := struct {
-		Type string   `json:"type"`
-		Hist []mapOp  `json:"history"`
-		Dim  int      `json:"dim"`
-		Mesh string   `json:"mesh"`
+		Type string  `json:"type"`
+		Hist []mapOp `json:"history"`
+		Dim  int     `json:"dim"`
+		Mesh string  `json:"mesh"`
 	}{}
 	r.LoadReplay(&b)
 	switch {
